@@ -25,3 +25,81 @@ pub fn prop() -> HistProp {
         assumptions: vec!["one handle per file at a time (documented precondition)", "files stay below 4 clusters in this tier; the 4 GiB end of the range is covered by C20"],
     }
 }
+
+// ---------------------------------------------------------------------------------------------------------
+// bounded-exhaustive boundary block: (initial length, seek target, operation, length) over the boundary set
+
+use super::hist;
+use crate::gen::Case;
+use crate::ops::Op;
+use crate::run::{self, Block, Report, Tier};
+use crate::vol::VolCfg;
+
+fn boundary_set(cs: i64, len: i64) -> Vec<i64> {
+    let mut v = vec![0, 1, cs - 1, cs, cs + 1, 2 * cs - 1, 2 * cs, 2 * cs + 1, 3 * cs, len - 1, len, len + 1];
+    v.retain(|x| *x >= 0);
+    v.sort();
+    v.dedup();
+    v
+}
+
+pub fn run(tier: Tier, seed: u64) -> i32 {
+    let hp = prop();
+    let mut rep = Report::new(hp.id, tier, seed, hp.level, hp.rule);
+    rep.rule.push_str("; bounded-exhaustive boundary block: for each cluster size (quick: 512 and 4096; thorough: 512, 1024, 2048, 4096, 65536) EVERY combination of initial file length x seek target x {read n, write n, truncate} x n over {0, 1, cs-1, cs, cs+1, 2cs-1, 2cs, 2cs+1, 3cs, len-1, len, len+1}, followed by a write and a read-back through a fresh handle");
+    for a in &hp.assumptions {
+        rep.assume(a);
+    }
+    let kb = hist::known_block(&hp, &mut rep);
+    rep.add(kb);
+    rep.add(hist::regress_block(&hp));
+    let presets: Vec<usize> = tier.pick(vec![0, 4], vec![0, 3, 7, 4, 6, 12]);
+    let mut cases: Vec<Case> = Vec::new();
+    for p in presets {
+        let vol = VolCfg::from_preset(p);
+        let cs = vol.cluster_size() as i64;
+        for len in boundary_set(cs, 0) {
+            for target in boundary_set(cs, len) {
+                let lens = boundary_set(cs, len);
+                let mut variants: Vec<Vec<Op>> = vec![vec![Op::Truncate { h: 0 }]];
+                for n in &lens {
+                    variants.push(vec![Op::Read { h: 0, len: *n as u32 }, Op::Read { h: 0, len: *n as u32 }]);
+                    variants.push(vec![Op::Write { h: 0, len: *n as u32, seed: 7 }, Op::Write { h: 0, len: *n as u32, seed: 8 }]);
+                }
+                for var in variants {
+                    let mut ops = vec![Op::CreateFile { via: 0, path: "f".into(), keep: 1 }];
+                    let mut left = len;
+                    while left > 0 {
+                        let n = left.min(cs);
+                        ops.push(Op::Write { h: 0, len: n as u32, seed: 1 });
+                        left -= n;
+                    }
+                    ops.push(Op::Seek { h: 0, whence: 0, off: target });
+                    ops.extend(var);
+                    ops.push(Op::Seek { h: 0, whence: 1, off: -1 });
+                    ops.push(Op::Write { h: 0, len: 3, seed: 9 });
+                    ops.push(Op::Seek { h: 0, whence: 2, off: -(cs + 1) });
+                    ops.push(Op::Read { h: 0, len: (2 * cs) as u32 });
+                    ops.push(Op::CloseFile { h: 0 });
+                    ops.push(Op::OpenFile { via: 0, path: "f".into(), keep: 0 });
+                    cases.push(Case { vol: vol.clone(), ops });
+                }
+            }
+        }
+    }
+    let hp_ref = &hp;
+    let cases_ref = &cases;
+    let mut b: Block = run::run_indexed("exhaustive_boundary_combinations", cases.len() as u64, |i, blk| {
+        let case = &cases_ref[i as usize];
+        let mut out = hist::eval_case(hp_ref, case);
+        out.nontrivial = true;
+        blk.record(&out, || serde_json::to_value(case).unwrap());
+        out.violation.map(|m| run::Failure { message: m, case: serde_json::to_value(case).unwrap(), kind: "history".into() })
+    });
+    b.exhaustive = true;
+    rep.add(b);
+    if !rep.failed() {
+        rep.add(hist::random_block(&hp, "random_histories", seed, tier.pick(hp.quick_cases, hp.thorough_cases)));
+    }
+    rep.finish()
+}
